@@ -69,6 +69,7 @@ def run_one(tape, opts):
     vclock.install(clock)
     world = World()
     observers = []     # (name, kind, obj/None, taggers)
+    kept_dicts = []
     k = top[0]
     tagger_top = []
     try:
@@ -93,8 +94,10 @@ def run_one(tape, opts):
         elif k == "E2Stream":
             sink = TStream(world, "sink")
             ext = TExt(world, "replayed")
-            result = ExtendedToStreamDecorator(CopyStreamResult([sink, StreamToExtendedDecorator(ext)]))
-            observers = [("sink", "stream", ()), ("replayed", "extended", ())]
+            from testtools.testresult.real import StreamToDict
+            kept_dicts = []
+            result = ExtendedToStreamDecorator(CopyStreamResult([sink, StreamToExtendedDecorator(ext), StreamToDict(kept_dicts.append)]))
+            observers = [("sink", "stream", ()), ("replayed", "extended", ()), ("dicts", "dicts", ())]
         else:
             built = pl.Built()
             result = pl.build_stack(top[1], world, built, make_testtools=lambda w, n: LoggingTestResult(w, n))
@@ -115,7 +118,7 @@ def run_one(tape, opts):
         raise
     # which observers can see tags at all
     def sees_tags(fl):
-        return fl in ("extended", "testtools", "stream")
+        return fl in ("extended", "testtools", "stream", "dicts")
 
     rep = pl.Reporter(result, hist)
     model = pl.TagModel()                       # the reporter's view
@@ -176,7 +179,11 @@ def run_one(tape, opts):
         for name, fl, tg in observers:
             if not sees_tags(fl):
                 continue
-            if fl == "stream":
+            if fl == "dicts":
+                # what the consumer was handed, as it reads now, after all later events: the tags of
+                # an already reported test must not move with the reporter's later tag changes
+                got = [(d["id"], frozenset(d["tags"] or ())) for d in kept_dicts if d["status"] not in ("inprogress", "unknown")]
+            elif fl == "stream":
                 got = [(e.data["test_id"], frozenset(e.data["test_tags"] or ())) for e in world.events
                        if e.target == name and e.method == "status" and e.data["test_status"] not in (None, "inprogress")]
             else:
